@@ -4,6 +4,7 @@ package eventbus
 
 import (
 	"context"
+	"encoding/json"
 	"errors"
 	"iter"
 )
@@ -161,3 +162,5 @@ func (f *flakyStore) SaveOffset(ctx context.Context, id string, o Offset) error 
 func (f *flakyStore) LoadOffset(ctx context.Context, id string) (Offset, error) {
 	return f.inner.LoadOffset(ctx, id)
 }
+
+func jsonUnmarshalOK(data []byte, v any) bool { return json.Unmarshal(data, v) == nil }
